@@ -98,7 +98,10 @@ def ResOk (cfg : Cfg) (cl : Call) (t : Nat) : Res → Prop
       ∀ b ∈ cl.attempts, b.out = .ok → ∀ tb, b.fin = some tb → tf ≤ tb
   | .allFailed _ _ => cl.attempts.length = cfg.max ∧
       ∀ a ∈ cl.attempts, ∃ tf, a.fin = some tf ∧ tf ≤ t ∧ isFail a.out = true
-  | _ => True
+  | .panic => True
+  -- a call resolves with a response, with all-attempts-failed, or by the drain phase's panic — with nothing else
+  -- (in particular never with `HedgeError::Inner`: that is the answer to a failed readiness poll, `Op.refused`)
+  | _ => False
 
 structure ResInv (cfg : Cfg) (now : Nat) (cl : Call) : Prop where
   noRes : cl.phase ≠ .done → cl.result = none
@@ -259,7 +262,7 @@ theorem ResInv_finMove {cfg now} {cl : Call} {pre a post} (h : ResInv cfg now cl
     intro hp
     obtain ⟨t, r, h1, h2, h3, h4⟩ := h.res hp
     refine ⟨t, r, h1, h2, h3, ?_⟩
-    cases r <;> try exact trivial
+    (cases r <;> try exact trivial) <;> try exact h4
     · -- ok
       rename_i v
       obtain ⟨w, hw, hk, ho, tf, hwf, hd, htf, hmin⟩ := h4
@@ -637,20 +640,48 @@ theorem pushWaiting_spec {cfg now} (wt : Wait) {w : W} (h1 : ChanInv cfg now w.c
   have hnd : w.cl.phase ≠ .done := by intro hq; rw [hq] at hl; cases hl
   exact ⟨ChanInv_push h1 hnf rfl, ResInv_push h2 hnd, rfl, rfl, rfl, rfl⟩
 
-/-- the three shapes of starting an attempt: called at once (after an optional readiness event), or waiting -/
+/-- a readiness failure is "push an unfinished attempt, then complete it with its error" -/
+theorem failAttempt_cl (now : Nat) (w : W) :
+    (failAttempt now w).cl =
+      finMove now { w.cl with attempts := failedAttempt now w.cl.attempts.length :: w.cl.attempts } []
+        (failedAttempt now w.cl.attempts.length) w.cl.attempts := rfl
+
+theorem failAttempt_spec {cfg now} {w : W} (h1 : ChanInv cfg now w.cl) (h2 : ResInv cfg now w.cl)
+    (hl : live w.cl.phase = true) :
+    ChanInv cfg now (failAttempt now w).cl ∧ ResInv cfg now (failAttempt now w).cl ∧
+    (failAttempt now w).cl.phase = w.cl.phase ∧
+    starts (failAttempt now w).cl = now :: starts w.cl ∧
+    (failAttempt now w).cl.nextHedgeAt = w.cl.nextHedgeAt ∧
+    (failAttempt now w).cl.plan = w.cl.plan := by
+  have hnf : w.cl.phase ≠ .fresh := by intro hq; rw [hq] at hl; cases hl
+  have hnd : w.cl.phase ≠ .done := by intro hq; rw [hq] at hl; cases hl
+  have p1 : ChanInv cfg now { w.cl with attempts := failedAttempt now w.cl.attempts.length :: w.cl.attempts } :=
+    ChanInv_push h1 hnf rfl
+  have p2 : ResInv cfg now { w.cl with attempts := failedAttempt now w.cl.attempts.length :: w.cl.attempts } :=
+    ResInv_push h2 hnd
+  rw [failAttempt_cl]
+  refine ⟨ChanInv_finMove p1 rfl rfl (Nat.le_refl _) (by simp [failedAttempt]), ResInv_finMove p2 rfl rfl,
+    by rw [finMove_phase], ?_, by rw [finMove_nextHedgeAt], by rw [finMove_plan]⟩
+  rw [finMove_starts _ _ _ _ _ rfl]
+  rfl
+
+/-- the shapes of starting an attempt: called at once (after an optional readiness event), waiting, or over at once
+because its clone failed the readiness poll -/
 theorem startAttempt_cases (now c : Nat) (w : W) :
     (∃ evs, startAttempt now c w = callAttempt now c { w with evs := w.evs ++ evs } ∧
         ∀ c', callsOf c' evs = []) ∨
     (∃ wt e, wt ≠ Wait.no ∧
-        startAttempt now c w = pushWaiting now wt { w with evs := w.evs ++ [Ev.raw e] }) := by
+        startAttempt now c w = pushWaiting now wt { w with evs := w.evs ++ [Ev.raw e] }) ∨
+    (∃ e, startAttempt now c w = failAttempt now { w with evs := w.evs ++ [Ev.raw e] }) := by
   unfold startAttempt
   split
   · left; exact ⟨[], by simp, fun _ => rfl⟩
   · rename_i d _
     split
-    · left; exact ⟨[warmEv c w.cl.attempts.length (some d)], rfl, fun _ => rfl⟩
-    · right; exact ⟨.till (now + d), _, by simp, rfl⟩
-  · right; exact ⟨.forever, _, by simp, rfl⟩
+    · left; exact ⟨[warmEv c w.cl.attempts.length (.after d)], rfl, fun _ => rfl⟩
+    · right; left; exact ⟨.till (now + d), _, by simp, rfl⟩
+  · right; left; exact ⟨.forever, _, by simp, rfl⟩
+  · right; right; exact ⟨_, rfl⟩
 
 theorem startAttempt_spec {cfg now} (c : Nat) {w : W} (h1 : ChanInv cfg now w.cl) (h2 : ResInv cfg now w.cl)
     (hl : live w.cl.phase = true) :
@@ -659,9 +690,10 @@ theorem startAttempt_spec {cfg now} (c : Nat) {w : W} (h1 : ChanInv cfg now w.cl
     starts (startAttempt now c w).cl = now :: starts w.cl ∧
     (startAttempt now c w).cl.nextHedgeAt = w.cl.nextHedgeAt ∧
     (startAttempt now c w).cl.plan = w.cl.plan := by
-  rcases startAttempt_cases now c w with ⟨evs, he, _⟩ | ⟨wt, e, _, he⟩
+  rcases startAttempt_cases now c w with ⟨evs, he, _⟩ | ⟨wt, e, _, he⟩ | ⟨e, he⟩
   · rw [he]; exact callAttempt_spec (cfg := cfg) c (w := { w with evs := w.evs ++ evs }) h1 h2 hl
   · rw [he]; exact pushWaiting_spec (cfg := cfg) wt (w := { w with evs := w.evs ++ [Ev.raw e] }) h1 h2 hl
+  · rw [he]; exact failAttempt_spec (cfg := cfg) (w := { w with evs := w.evs ++ [Ev.raw e] }) h1 h2 hl
 
 theorem SpacedT_const (cfg : Cfg) (now : Nat) : ∀ l : List Nat, (∀ t ∈ l, t = now) →
     (cfg.delay 1 = 0 ∨ l.length ≤ 1) → SpacedT cfg l
@@ -887,7 +919,7 @@ theorem CallInv.mono {cfg : Cfg} {now now' : Nat} {cl : Call} (h : CallInv cfg n
     obtain ⟨t, r, q1, q2, q3, q4⟩ := h.rs.res hp
     exact ⟨t, r, q1, Nat.le_trans q2 hle, q3, q4⟩
 
-theorem CallInv_new (cfg : Cfg) (now : Nat) (plan : List Step) (warm : List (Option Nat)) :
+theorem CallInv_new (cfg : Cfg) (now : Nat) (plan : List Step) (warm : List Ready) :
     CallInv cfg now { plan := plan, warm := warm } := by
   refine ⟨⟨Nat.zero_le _, trivial, ?_, ?_, ?_, fun _ _ n _ _ => Nat.zero_le n⟩,
     ⟨?_, List.Pairwise.nil, ?_, ?_, ?_, ?_, ?_⟩, ⟨fun _ => rfl, ?_⟩⟩
@@ -1038,7 +1070,7 @@ theorem ResInv_swap {cfg now} {cl : Call} {pre post : List Attempt} {a a' : Atte
   · intro hp
     obtain ⟨t, r, h1, h2, h3, h4⟩ := h.res hp
     refine ⟨t, r, h1, h2, by rw [starts_swap hatt hs]; exact h3, ?_⟩
-    cases r <;> try exact trivial
+    (cases r <;> try exact trivial) <;> try exact h4
     · rename_i v
       obtain ⟨w, hw, hk, ho, tf, hwf, hd, htf, hmin⟩ := h4
       refine ⟨w, ?_, hk, ho, tf, hwf, hd, htf, ?_⟩
@@ -1131,7 +1163,7 @@ theorem advS_inv {cfg : Cfg} {s : State} (ms : Nat) (order : List Fire) (h : Inv
   · exact foldl_fireOne_inv _ _ h1
   · exact foldl_fireOne_inv _ _ h1
 
-theorem arriveS_inv {cfg : Cfg} {s : State} (c : Nat) (plan : List Step) (warm : List (Option Nat))
+theorem arriveS_inv {cfg : Cfg} {s : State} (c : Nat) (plan : List Step) (warm : List Ready)
     (h : Inv cfg s) : Inv cfg (arriveS s c plan warm) := by
   unfold arriveS
   split
@@ -1148,6 +1180,7 @@ theorem stepS_inv {cfg : Cfg} {s : State} (op : Op) (hmax : 1 ≤ cfg.max) (h : 
   | poll c => exact pollS_inv c hmax h
   | drop c => exact dropS_inv c h
   | adv ms order => exact advS_inv ms order h
+  | refused c kind v => exact h
 
 theorem foldl_stepS_inv {cfg : Cfg} (hmax : 1 ≤ cfg.max) (ops : List Op) :
     ∀ s : State, Inv cfg s → Inv cfg (ops.foldl (stepS cfg) s) := by
@@ -1464,6 +1497,7 @@ theorem stepS_frozen (cfg : Cfg) (s : State) (op : Op) (c : Nat) (cl : Call)
     split
     · exact Same_foldl_fireOne _ _ h0
     · exact Same_foldl_fireOne _ _ h0
+  | refused c' kind v => exact h0
 
 /-! ## the attempts of a request are exactly its `inner_call` events in the log -/
 
@@ -1534,13 +1568,21 @@ theorem WL_evs {c : Nat} {base : List Nat} {w : W} (h : WL c base w) (evs : List
     rw [callsOf_append, he c, List.append_nil]; exact h.2
 
 theorem WL_startAttempt {now c : Nat} {base : List Nat} {w : W} (h : WL c base w) : WL c base (startAttempt now c w) := by
-  rcases startAttempt_cases now c w with ⟨evs, he, hn⟩ | ⟨wt, e, hwt, he⟩
+  rcases startAttempt_cases now c w with ⟨evs, he, hn⟩ | ⟨wt, e, hwt, he⟩ | ⟨e, he⟩
   · rw [he]; exact WL_callAttempt (WL_evs h evs hn)
   · rw [he]
     have h' := WL_evs h [Ev.raw e] (fun _ => rfl)
     refine ⟨h'.1, ?_⟩
     have : serialsAsc (pushWaiting now wt { w with evs := w.evs ++ [Ev.raw e] }).cl = serialsAsc w.cl := by
       simp [serialsAsc, pushWaiting, isCalled, hwt]
+    rw [this]; exact h'.2
+  · rw [he]
+    have h' := WL_evs h [Ev.raw e] (fun _ => rfl)
+    refine ⟨h'.1, ?_⟩
+    -- the attempt that failed its readiness poll never called: it contributes no serial
+    have : serialsAsc (failAttempt now { w with evs := w.evs ++ [Ev.raw e] }).cl = serialsAsc w.cl := by
+      rw [failAttempt_cl]
+      simp [serialsAsc, finMove_attempts, isCalled, failedAttempt]
     rw [this]; exact h'.2
 
 theorem recvLat_attempts (cfg : Cfg) (now c : Nat) : ∀ (msgs : List Attempt) (cl : Call),
@@ -1798,6 +1840,12 @@ theorem LogInv_stepS (cfg : Cfg) {s : State} (op : Op) (h : LogInv s) : LogInv (
       rw [callsOf_append]
       have : callsOf c [Ev.raw "choice-not-allowed"] = [] := rfl
       rw [this, List.append_nil]; exact h c
+  | refused c' kind v =>
+    intro c
+    show (callsOf c (s.log ++ [Ev.result c' (.inner kind v)])).Perm _
+    rw [callsOf_append]
+    have : callsOf c [Ev.result c' (.inner kind v)] = [] := rfl
+    rw [this, List.append_nil]; exact h c
 
 theorem loginv_reachable (cfg : Cfg) (ops : List Op) : LogInv (run cfg ops) := by
   unfold run
@@ -1917,6 +1965,7 @@ theorem keys_nodup_stepS (cfg : Cfg) {s : State} (op : Op) (h : (keys s.calls).N
     split
     · rw [keys_foldl_fireOne]; exact h
     · rw [keys_foldl_fireOne]; exact h
+  | refused c kind v => exact h
 
 theorem keys_nodup_reachable (cfg : Cfg) (ops : List Op) : (keys (run cfg ops).calls).Nodup := by
   unfold run
@@ -1925,5 +1974,71 @@ theorem keys_nodup_reachable (cfg : Cfg) (ops : List Op) : (keys (run cfg ops).c
   induction ops with
   | nil => intro s h; exact h
   | cons op tl ih => intro s h; exact ih _ (keys_nodup_stepS cfg op h)
+
+/-! ## a polled call leaves no due hedge unstarted (a zero delay for a later hedge does not end the hedging) -/
+
+theorem callAttempt_shape (now c : Nat) (w : W) :
+    starts (callAttempt now c w).cl = now :: starts w.cl ∧
+    (callAttempt now c w).cl.nextHedgeAt = w.cl.nextHedgeAt := by
+  have p4 : starts (pushAttempt now w).cl = now :: starts w.cl := rfl
+  have p5 : (pushAttempt now w).cl.nextHedgeAt = w.cl.nextHedgeAt := rfl
+  rw [callAttempt_cl]
+  split
+  · exact ⟨by rw [finishCall_starts, p4], by rw [finishCall_nextHedgeAt, p5]⟩
+  · exact ⟨p4, p5⟩
+
+theorem startAttempt_shape (now c : Nat) (w : W) :
+    starts (startAttempt now c w).cl = now :: starts w.cl ∧
+    (startAttempt now c w).cl.nextHedgeAt = w.cl.nextHedgeAt := by
+  rcases startAttempt_cases now c w with ⟨evs, he, _⟩ | ⟨wt, e, _, he⟩ | ⟨e, he⟩
+  · rw [he]; exact callAttempt_shape now c { w with evs := w.evs ++ evs }
+  · rw [he]; exact ⟨rfl, rfl⟩
+  · rw [he, failAttempt_cl]
+    exact ⟨by rw [finMove_starts _ _ _ _ _ rfl]; rfl, by rw [finMove_nextHedgeAt]⟩
+
+/-- the select loop's second arm is enabled: an attempt is left to start, its timer has elapsed (and is one that can
+elapse at all) -/
+def HedgeDue (cfg : Cfg) (now : Nat) (cl : Call) : Prop :=
+  cl.attempts.length < cfg.max ∧ cl.nextHedgeAt ≤ now ∧ cfg.never cl.attempts.length = false
+
+theorem spawnLat_no_due (cfg : Cfg) (now c : Nat) : ∀ (fuel : Nat) (w : W),
+    cfg.max ≤ w.cl.attempts.length + fuel → ¬ HedgeDue cfg now (spawnLat cfg now c fuel w).cl := by
+  intro fuel
+  induction fuel with
+  | zero =>
+    intro w h
+    unfold spawnLat
+    intro hd
+    have := hd.1
+    omega
+  | succ n ih =>
+    intro w h
+    unfold spawnLat
+    split
+    · apply ih
+      have hl : (startAttempt now c w).cl.attempts.length = w.cl.attempts.length + 1 := by
+        rw [length_eq_starts, (startAttempt_shape now c w).1, List.length_cons, ← length_eq_starts]
+      dsimp only
+      split
+      · show cfg.max ≤ (startAttempt now c w).cl.attempts.length + n
+        omega
+      · omega
+    · rename_i hg
+      exact hg
+
+/-- a poll of a call in latency mode that leaves it in latency mode has started every hedge that was due -/
+theorem pollCall_no_due (cfg : Cfg) (now c : Nat) (w : W) (hp : w.cl.phase = .latency)
+    (hq : (pollCall cfg now c w).cl.phase = .latency) : ¬ HedgeDue cfg now (pollCall cfg now c w).cl := by
+  unfold pollCall at hq ⊢
+  rw [hp] at hq ⊢
+  dsimp only at hq ⊢
+  unfold pollLatency at hq ⊢
+  dsimp only at hq ⊢
+  split
+  · apply spawnLat_no_due
+    omega
+  · rename_i hn
+    rw [if_neg hn] at hq
+    exact absurd hq hn
 
 end TR.Hedge
